@@ -5,6 +5,7 @@ import (
 	"errors"
 	"fmt"
 	"net/http"
+	"runtime"
 	"strings"
 
 	connect "github.com/bufbuild/connect-go"
@@ -76,6 +77,10 @@ func panicOp(c *Ctx, op string) {
 	declined := connect.NewError(connect.CodeResourceExhausted, errors.New("declined"))
 	maybePanic := func(point string) {
 		if class != "none" && class != "fail" && a["point"] == point {
+			if a["val"] == "runtime" {
+				var m map[string]int
+				m["a real fault"] = 1 // the runtime panics with a runtime.Error
+			}
 			panic(pv) //nolint
 		}
 	}
@@ -221,6 +226,10 @@ func panicOp(c *Ctx, op string) {
 	default:
 		if len(calls) != 1 {
 			c.Fail("recover-count", op, ans, "a handler panic must lead to exactly one call of the recovery function")
+		} else if a["val"] == "runtime" {
+			if re, ok := callVals[0].(runtime.Error); !ok || !strings.Contains(re.Error(), "nil map") {
+				c.Fail("recover-value", op, fmt.Sprintf("%#v", callVals[0]), "the recovery function did not get the runtime error the handler panicked with")
+			}
 		} else if fmt.Sprintf("%#v", callVals[0]) != fmt.Sprintf("%#v", pv) {
 			c.Fail("recover-value", op, fmt.Sprintf("%#v", callVals[0]), "the recovery function did not get the recovered value")
 		}
@@ -263,7 +272,7 @@ func streamPanic(c *Ctx) {
 	points := []string{"before", "between", "after"}
 	vals := map[string][]string{
 		"none": {"-"}, "nil": {"-"}, "abort": {"-"}, "fail": {"-"},
-		"other": {"error", "string", "struct", "wrapped-abort", "coded", "int"},
+		"other": {"error", "string", "struct", "wrapped-abort", "coded", "int", "runtime"},
 	}
 	for _, kind := range kinds {
 		api := "stream"
